@@ -137,6 +137,23 @@ fn c11(seed: u64, thorough: bool) -> Scenario {
         tags.push("list".to_string());
     }
     g.world.args.long_flags = g.rng.chance(1, 2);
+    // level B: report paths must stay root-relative wherever the tool is started (only for
+    // worlds without scripts, whose paths are cwd-relative by design, and cwd-independent globs)
+    if !g.uses_lua()
+        && g.world.args.globs.iter().all(|x| x.starts_with("**"))
+        && g.rng.chance(1, 3)
+    {
+        let dirs: Vec<String> = g
+            .world
+            .files
+            .iter()
+            .filter_map(|f| f.path.rsplit_once('/').map(|(d, _)| d.to_string()))
+            .collect();
+        if !dirs.is_empty() {
+            g.world.cwd = g.rng.pick(&dirs).clone();
+            tags.push("cwd=subdir".to_string());
+        }
+    }
     let (world, plan) = g.finish();
     Scenario {
         prop: String::new(),
